@@ -3,7 +3,7 @@
     target class, whether the probe handler ran, and the session table. *)
 From AGH Require Import Base.Run Model.Session.
 From AGH Require Export Model.AuthHttp.
-From AGH Require Import Proofs.AuthGlob.
+From AGH Require Import Proofs.AuthGlob Gen.Routes.
 From stdpp Require Import gmap.
 Local Open Scope Z_scope.
 
@@ -24,7 +24,13 @@ Inductive case :=
   | CMux (public : bool) (ran : bool)
   (* isPublicResource(p) as observed; compared with the wrapper model's
      [is_public] and with the shared model of path.Match (Base/Glob.v) *)
-  | CPublic (p : bytes) (obs : bool).
+  | CPublic (p : bytes) (obs : bool)
+  (* start-up: the real initUsers on a data directory in state [b]; observed:
+     auth != nil, err != nil; then, when run would go on (err == nil), a
+     request through a real chain with [globalContext.auth] as initUsers left
+     it.  The model side is [boot] with the facts tools/routes read off the
+     source; the two start-up flags of [e] are replaced by its verdict. *)
+  | CBoot (b : boot_in) (obs_auth obs_err : bool) (probe : option (env * stable * chain_sel * request * obs)).
 
 Definition mk_sess (t : stable) : sstate :=
   let m := list_to_map (map (fun '(k, (u, e)) => (k, {| s_user := u; s_expire := e |})) t) : gmap N sess in
@@ -69,6 +75,16 @@ Definition case_ok (c : case) : bool :=
   | CPublic p o =>
       Bool.eqb (is_public p) o &&
       match glob_public p with Some b => Bool.eqb b o | None => false end
+  | CBoot b oa oe pr =>
+      let '(a, err) := init_users Gen.Routes.startup b in
+      Bool.eqb a oa && Bool.eqb err oe &&
+      match boot Gen.Routes.startup b, pr with
+      | BootFatal, None => true
+      | BootServe p u, Some (e, sess, k, r, o) =>
+          let '(ran, st, loc, m) := run_probe (with_boot p u e) sess k r in
+          Bool.eqb ran (o_ran o) && (st =? o_status o) && (loc =? o_loc o) && stab_ok m (o_sess o)
+      | _, _ => false
+      end
   end.
 
 Definition mismatches := Base.Run.mismatches case_ok.
@@ -80,4 +96,12 @@ Definition explain (c : case) : bool * Z * Z * stable :=
       (ran, st, loc, map (fun '(k, s) => (k, (s_user s, s_expire s))) (map_to_list m))
   | CMux _ _ => (false, 0, 0, [])
   | CPublic p _ => (is_public p, match glob_public p with Some true => 1 | Some false => 0 | None => -1 end, 0, [])
+  | CBoot b _ _ pr =>
+      match boot Gen.Routes.startup b, pr with
+      | BootServe p u, Some (e, sess, k, r, _) =>
+          let '(ran, st, loc, m) := run_probe (with_boot p u e) sess k r in
+          (ran, st, loc, map (fun '(k, s) => (k, (s_user s, s_expire s))) (map_to_list m))
+      | BootServe p u, None => (p, -2, 0, [])
+      | BootFatal, _ => (false, -1, 0, [])
+      end
   end.
